@@ -72,3 +72,18 @@ def trivial_subst_kinds(ck, facts, R):
             ck.violation(R, "is_trivial_canonical_subst:%s" % v, tb.where(arm["ln"]),
                          "the %s arm does not look at the argument's bound variable: bindings of this kind found by a sub-obligation are "
                          "either never applied or always re-applied" % v)
+
+
+def clauses_no_drop(ck, facts, R):
+    """Shared by C06 / C07 / C20 / C21: the lowering of datums to program clauses (ToProgramClauses impls and the helper functions of
+    chalk_solve::clauses::program_clauses) mentions every where clause / parameter / bound of the datum: no element-dropping adaptor."""
+    from kit import adaptor_inventory
+    ck.rule(R, "K6-style inventory (expected count 0, positive control on every run): the functions of chalk_solve::clauses::program_clauses "
+               "- every ToProgramClauses::to_program_clauses and its helpers - apply no iterator adaptor that can drop or pick elements "
+               "(filter, filter_map, skip, take, find, last, ..) to the where clauses, parameters or bounds of the datum they lower: a "
+               "dropped where clause disappears from the WF / implied-bound / normalization / orphan rule built from it")
+    n = len([k for k in facts.bodies("chalk_solve") if "program_clauses::ToProgramClauses" in k and k.endswith("::to_program_clauses")])
+    ck.floor(R, "ToProgramClauses-impls", n, 7)
+    adaptor_inventory(ck, R, facts, "chalk_solve", lambda k: "::program_clauses::" in k, {},
+                      "the clause built here would not mention every element of the datum")
+    ck.ok(R, "program_clauses:no-element-dropping-adaptor", "%d to_program_clauses implementations examined" % n)
